@@ -211,6 +211,11 @@ def handleCfg (cfg : Cfg) (toks : List String) : String :=
     match parseKind k, w.toNat?, off.toNat?, len.toNat?, v.toNat?, bytesOfHex h with
     | some k, some w, some off, some len, some v, some d => opPut cfg ⟨k, w⟩ off len v d
     | _, _, _, _, _, _ => "BAD-OP"
+  | ["SKIPPARSE", k, w, off, skip, len, h] =>
+    -- `consume_bits(skip)` adds to the cursor and does nothing else (Parser::consume_bits)
+    match parseKind k, w.toNat?, off.toNat?, skip.toNat?, len.toNat?, bytesOfHex h with
+    | some k, some w, some off, some skip, some len, some d => opParse cfg ⟨k, w⟩ (off + skip) len d
+    | _, _, _, _, _, _ => "BAD-OP"
   | ["PARSE", k, w, off, len, h] =>
     match parseKind k, w.toNat?, off.toNat?, len.toNat?, bytesOfHex h with
     | some k, some w, some off, some len, some d => opParse cfg ⟨k, w⟩ off len d
